@@ -221,7 +221,26 @@ multiplying by the marginal entry (= `s`) gives the joint entry back. -/
 theorem conditional_entry (p s : Rat) (hs : s ≠ 0) : s * (p / s) = p := by
   field_simp
 
+/-- C16.i `ProbDist` tuple access is row-major: for an in-range multi-index the entry returned is the one at the serial index
+`i₀·(n₁⋯n_k) + …`, i.e. the same entry the index maps of C16.a–d address (so `dist[(i,j,…)]`, `dist[serial]` and
+`ps.reshape(shape)[idx]` agree). -/
+theorem probDistGet_row_major (ps : List Rat) (shape idx : List Nat) (hps : ps.length = prod shape)
+    (hlen : shape.length = idx.length) (hr : ∀ p ∈ shape.zip idx, p.2 < p.1) :
+    ∃ s, serialFromMulti shape idx = some s ∧ s < ps.length ∧ probDistGet ps shape idx = ps[s]? := by
+  obtain ⟨s, hs, hlt, _⟩ := multi_of_serial_of_multi shape idx hlen hr
+  refine ⟨s, hs, by omega, ?_⟩
+  unfold probDistGet
+  rw [if_neg (by omega), if_neg (by omega)]
+  have hany : ((shape.zip idx).any fun li => decide (li.1 ≤ li.2)) = false := by
+    rw [List.any_eq_false]
+    intro p hp
+    have := hr p hp
+    simp only [decide_eq_true_eq]
+    omega
+  simp [hany, hs]
+
 -- non-vacuity: concrete instances of the hypotheses
+example : probDistGet [1/6, 1/6, 1/6, 1/12, 1/12, 1/3] [2, 3] [1, 2] = some (1/3) := by decide +kernel
 example : marginalRaw [1/8, 1/8, 1/4, 1/2] [2, 2] [1] = ([2], [3/8, 5/8]) := by decide +kernel
 example : multiFromSerial [2, 3, 4] 17 = some [1, 1, 1] := by decide
 example : serialFromMulti [2, 3, 4] [1, 1, 1] = some 17 := by decide
